@@ -304,6 +304,17 @@ func pipeVariants(name string, data []byte) []pipeInput {
 			out = append(out, pipeInput{name: name + "#" + tag, data: b})
 		}
 	}
+	// an envelope whose digest value is written in upper-case hexadecimal digits (as another implementation may do)
+	if h, ok := base["head"].(map[string]any); ok {
+		if dg, ok := h["dig"].(map[string]any); ok {
+			if v, ok := dg["val"].(string); ok && strings.ToUpper(v) != v {
+				m := deepCopy(base).(map[string]any)
+				m["head"].(map[string]any)["dig"].(map[string]any)["val"] = strings.ToUpper(v)
+				b, _ := json.Marshal(m)
+				out = append(out, pipeInput{name: name + "#upper-digest", data: b})
+			}
+		}
+	}
 	// duplicate the last element of every top-level array
 	keys := []string{}
 	for k, v := range docOf(base) {
@@ -384,6 +395,17 @@ func pipeVariants(name string, data []byte) []pipeInput {
 		delete(in, "ext")
 		return true
 	})
+	// a rounding given with more decimals than the currency has (it is an input that stays between calculations)
+	for ri, rv := range []string{"0.004", "-0.0049", "0.0051"} {
+		rv := rv
+		add(fmt.Sprintf("fine-rounding-%d", ri), func(doc map[string]any) bool {
+			if _, ok := doc["lines"].([]any); !ok {
+				return false
+			}
+			doc["totals"] = map[string]any{"rounding": rv}
+			return true
+		})
+	}
 	// one more decimal on every price
 	add("price-decimals", func(doc map[string]any) bool {
 		ls, ok := doc["lines"].([]any)
